@@ -97,9 +97,13 @@ DEEP = dict(
 def deep_input(rng, notation):
     "Very deep nesting / very long digit runs, optionally inside a quantifier scope."
     d = DEEP[notation]
-    k = rng.choice((40, 140, 300, 600))
+    # depths: coarse, and a fine sweep around the interpreter's recursion limit (where an error
+    # can surface after the last character has been consumed)
+    k = rng.choice((40, 140, 300, 600)) if rng.random() < 0.4 else rng.randrange(60, 260)
     q = rng.choice(('', '') + d['quant'])
     tail = d['pred'][q] if q and rng.random() < 0.8 else d['atom']
+    if not q and rng.random() < 0.5:
+        tail = d['atom'] + str(rng.randrange(1000, 99999))      # a letter nobody has constructed before
     r = rng.random()
     if r < 0.5:
         body = rng.choice(d['unary']) * k + tail
@@ -155,11 +159,12 @@ def traced_parse(parser, text):
         if count[0] > EVENT_BUDGET:
             raise Budget()
         return local
+    deep = len(text) > 120       # very long inputs: call events only (line tracing at recursion depth ~1000 is fragile)
     def tracer(frame, event, arg):
         count[0] += 1
         if count[0] > EVENT_BUDGET:
             raise Budget()
-        if frame.f_code.co_filename.endswith(('parsing.py', 'collect.py')):
+        if not deep and frame.f_code.co_filename.endswith(('parsing.py', 'collect.py')):
             return local
         return None
     old = sys.gettrace()
@@ -205,6 +210,15 @@ def wellformed(sentence):
         return walk(s[3], bound + (v,))
     return walk(ast, ())
 
+def nesting(text):
+    "Upper bound of the nesting depth of an input: operator / quantifier / parenthesis characters."
+    return sum(1 for c in text if c in 'NTMLKACEUBVS(~*PX!&><$%')
+
+def near_recursion_limit(text, a, b):
+    """One side accepted, the other refused with ParseError, on an input nested deeply enough for
+    the interpreter's recursion limit to decide (the parsers are recursive)."""
+    return nesting(text) >= 80 and {a[:2], b[:2]} == {'S:', 'E:'} and 'ParseError' in (a + b)
+
 def outcome_repr(kind, val):
     if kind == 'ok':
         return 'S:' + repr(lexgen.to_ast(val))
@@ -243,6 +257,9 @@ def execute(spec, stats=None):
         tk, tv = traced_parse(twin, text)
         a, b = outcome_repr(kind, val), outcome_repr(tk, tv)
         if a != b:
+            if near_recursion_limit(text, a, b):
+                return ('history-dependent', cfg['notation'] + '|recursion-limit', 'parsing %r (nesting depth %d) after %d earlier parses gives %s, a fresh parser with the same declarations gives %s' % (
+                    text[:40] + '…', nesting(text), i, a[:40], b[:40]), i)
             return ('history-dependent', cfg['notation'], 'parsing %r after %d earlier parses gives %s, a fresh parser with the same declarations gives %s' % (
                 text, i, a[:80], b[:80]), i)
         if declarations(twin) != declarations(parser):
@@ -252,5 +269,8 @@ def execute(spec, stats=None):
         if declarations(parser) == before:
             k2, v2 = traced_parse(parser, text)
             if outcome_repr(k2, v2) != a:
+                if near_recursion_limit(text, a, outcome_repr(k2, v2)):
+                    return ('history-dependent', cfg['notation'] + '|recursion-limit', 're-parsing %r (nesting depth %d) gives %s after %s' % (
+                        text[:40] + '…', nesting(text), outcome_repr(k2, v2)[:40], a[:40]), i)
                 return ('history-dependent', cfg['notation'] + '|reparse', 're-parsing %r gives %s after %s' % (text, outcome_repr(k2, v2)[:80], a[:80]), i)
     return None
